@@ -168,7 +168,7 @@ def judge(cfg, sysd, exp_box, res, choices):
             if p is None or not np.all(np.isfinite(p)):
                 bad("coordinates-finite", f"atom {resid}{resname}:{an} position {p} in memory")
     tol = 1e-4 if cfg["boxsrc"].startswith("dens") else 1e-5
-    if len(box) != 3 or any(abs(b - e) > tol + 1e-9 for b, e in zip(box, exp_box)):
+    if len(box) != 3 or any(not abs(b - e) <= tol + 1e-9 for b, e in zip(box, exp_box)):
         bad("box-as-requested", f"box line {box}, expected {exp_box}", [f"boxsrc:{cfg['boxsrc']}", f"inp:{cfg['inp']}"])
     return viols
 
